@@ -72,31 +72,29 @@ Theorem C18_reentrant :
 Proof. exact consistent. Qed.
 Print Assumptions C18_reentrant.
 
-(* arguments.  Full statement:  forall p in pops (reach ..), e_args (p_e p) = e_gargs (p_e p)
-   (called with the arguments it was registered with).  The pinned code violates it (finding F17):
-   rescheduleEvent re-adds without args/kwargs.  Proved: it holds on the domain "no reschedule discarded
-   non-empty arguments" (executable flag [dropped]), and fails on a witness outside. *)
-Theorem C18_args_on_domain :
+(* arguments: every entry run() pops -- after any history, including reschedules -- is called with the arguments
+   the event was registered with (e_gargs: set by addEvent, carried over by rescheduleEvent).  This is the full
+   statement; it was C18_args_on_domain / C18_args_refuted before the repair of C18.F17. *)
+Theorem C18_args :
   forall fuel o ops p, let s := reach fuel o ops in
-  dropped s = false -> In p (pops s) -> e_args (p_e p) = e_gargs (p_e p).
-Proof. exact args_on_domain. Qed.
-Print Assumptions C18_args_on_domain.
+  In p (pops s) -> e_args (p_e p) = e_gargs (p_e p).
+Proof. exact args_kept. Qed.
+Print Assumptions C18_args.
 
-Theorem C18_args_refuted :
-  exists fuel o ops, let s := reach fuel o ops in
-  dropped s = true /\ exists p, In p (pops s) /\ e_args (p_e p) <> e_gargs (p_e p) /\
-  exists c, In c (calls s) /\ c_args c = noargs.
-Proof. exists 5%nat, [], witness_resched. exact args_refuted. Qed.
-Print Assumptions C18_args_refuted.
+Theorem C18_args_pending :
+  forall fuel o ops e, In e (heap (reach fuel o ops)) -> e_args e = e_gargs e.
+Proof. exact args_kept_pending. Qed.
+Print Assumptions C18_args_pending.
 
-(* rescheduled events: same name and function, new time, registered-args ghost kept; the old scheduling is removed *)
+(* rescheduled events: same name, function and arguments, new time; the old scheduling is removed *)
 Theorem C18_reschedule :
   forall n t s s', INV s -> reschedule n t s = (s', Ok tt) ->
   exists f e, In (n, f) (events s) /\ In (n, f) (events s') /\
     (forall m g, m <> n -> In (m, g) (events s) -> In (m, g) (events s')) /\
     heap s' = e :: filter (fun x => negb (named n x)) (heap s) /\
     e_name e = n /\ e_t e = t /\
-    (forall e0, In e0 (heap s) -> e_name e0 = n -> In (e_sid e0) (removed s') /\ e_gargs e = e_gargs e0).
+    (forall e0, In e0 (heap s) -> e_name e0 = n ->
+       In (e_sid e0) (removed s') /\ e_args e = e_args e0 /\ e_gargs e = e_gargs e0).
 Proof. exact reschedule_ok. Qed.
 Print Assumptions C18_reschedule.
 
